@@ -55,6 +55,15 @@ let handle id kind fields =
     res_line id (run_elbbox (cs n) (parse_attrs a)) (function Some bb -> show_bb bb | None -> "none")
   | "xfrm", [t; bb] -> res_line id (run_xfrm (cs t) (parse_bb bb)) show_bb
   | "resolve", [n; a; o] -> res_line id (run_resolve (cs n) (parse_attrs a) (parse_els o)) show_attrs
+  | "xmlpass", [d] ->
+    (match passthrough_doc (cs d) with
+     | Some (Some o) -> Printf.printf "%s\tOK\t%s\n" id (hs o)
+     | Some None -> Printf.printf "%s\tNOTREAL\n" id
+     | None -> Printf.printf "%s\tNONE\n" id)
+  | "unesc", [d] ->
+    (match unesc (cs d) with
+     | Some o -> Printf.printf "%s\tOK\t%s\n" id (hs o)
+     | None -> Printf.printf "%s\tNONE\n" id)
   | _ -> Printf.printf "%s\tSKIP\n" id
 
 let () =
